@@ -111,9 +111,24 @@ def doLoop : P String := do
   pure (" ".intercalate (toString rows.length ::
     rows.map (fun r => ",".intercalate (r.map (fun o => match o with | some v => showStr v | none => "none")))))
 
+/-- `vars.envchain <nos> {name val}* <ng> {entry}* <nt> {entry}*`, entry = `name (l val | r name)`
+→ `name=val` for every env entry, global entries first -/
+def doEnvChain : P String := do
+  let ent : P (Name × EDef) := do
+    let k ← nat; let kind ← tok
+    if kind == "l" then do let v ← str; pure (k, EDef.lit v)
+    else if kind == "r" then do let x ← nat; pure (k, EDef.read x)
+    else failure
+  let no ← nat; let os ← many no (do let k ← nat; let v ← str; pure (k, v))
+  let ng ← nat; let g ← many ng ent
+  let nt ← nat; let t ← many nt ent
+  let st := envChain os g t
+  pure (" ".intercalate ((g ++ t).map (fun e => s!"{e.1}={showStr ((st.lookup e.1).getD [])}")))
+
 def handle (op : String) (args : List String) : Option String :=
   let run (p : P String) := match p.run args with | some (r, []) => some r | _ => none
   match op with
+  | "vars.envchain" => run doEnvChain
   | "vars.loop" => run doLoop
   | "vars.resolve" => run doResolve
   | "vars.env" => run doEnv
